@@ -61,7 +61,10 @@ def plant(fault, level, delta, w, n):
     elif fault == 7:  # missing connection
         add(Inst("bad", cell, {"a": bus}))
     elif fault == 8:  # extra connection
-        add(Inst("bad", cell, {"a": bus, "b": g, "zz": g}))
+        if delta > 0:
+            add(Inst("bad", cell, {"a": bus, "b": g, "zz": g}))
+        else:  # ... as a member of an anonymous bundle which the bundle port does not have
+            add(Inst("bad", bleaf, {"b": Anon((("x", Sig("k")), ("y", g), ("zz", g))), "g": g}))
     elif fault == 9:  # reference to a missing port
         add(Inst("bad", cell, {"a": bus, "b": PRef("l" if level == 0 else "l0", "zz")}))
     elif fault == 10:  # reference to a missing bundle member
